@@ -39,6 +39,9 @@ const POOL: &[&str] = &[
     "$csp=d10,domain=sub.y.com",
     "@@$csp=d8,domain=sub.y.com",
     "@@$csp=d10,domain=y.com",
+    // a csp rule that also carries `important`: still a csp rule (it injects its directive and does
+    // not block)
+    "||x.com^$csp=d11,important",
 ];
 
 fn requests() -> Vec<Req> {
